@@ -111,22 +111,24 @@ func runScenario(sc scenario, verbose bool) error {
 		return err
 	}
 	fmt.Printf("world up: master %s, consul %s, repo %s, dir %s\n", w.Master.URL(), w.Consul.Addr(), w.Repo.Path(), w.Dir())
-	mark := 0
+	mark = 0
 	err = sc.run(w)
-	dump(w, &mark)
+	dump(w)
 	return err
 }
 
-// dump prints the trace entries after *mark.
-func dump(w *sim.World, mark *int) {
+var mark int
+
+// dump prints the trace entries not printed yet.
+func dump(w *sim.World) {
 	tr := w.Trace()
-	for _, r := range tr[*mark:] {
+	for _, r := range tr[mark:] {
 		if r.Type == "ACKNOWLEDGE" {
 			continue
 		}
 		fmt.Println("   ", r.String())
 	}
-	*mark = len(tr)
+	mark = len(tr)
 }
 
 func tasksLine(w *sim.World) string {
@@ -204,19 +206,18 @@ var scenarios = []scenario{
 		return nil
 	}},
 	{"happy", func(w *sim.World) error {
-		mark := 0
 		id, st, err := newEnv(w)
 		if err != nil {
 			return err
 		}
 		fmt.Printf("NewEnvironment -> env %s state %s\n  sim tasks: %s\n  core tasks: %s\n", id, st, tasksLine(w), coreTasks(w))
-		dump(w, &mark)
+		dump(w)
 		for _, op := range []pb.ControlEnvironmentRequest_Optype{
 			pb.ControlEnvironmentRequest_START_ACTIVITY, pb.ControlEnvironmentRequest_STOP_ACTIVITY,
 			pb.ControlEnvironmentRequest_RESET, pb.ControlEnvironmentRequest_CONFIGURE, pb.ControlEnvironmentRequest_RESET} {
 			st, err = control(w, id, op)
 			fmt.Printf("ControlEnvironment %s -> state %q err %v\n  sim tasks: %s\n", op, st, err, tasksLine(w))
-			dump(w, &mark)
+			dump(w)
 			if err != nil {
 				return err
 			}
@@ -237,6 +238,227 @@ var scenarios = []scenario{
 		fmt.Printf("  sim tasks: %s\n  core tasks: %s\n", tasksLine(w), coreTasks(w))
 		return err
 	}},
+	{"start-error-critical", func(w *sim.World) error {
+		// critical task tca answers START with an error and stays CONFIGURED
+		w.SetOutcome(sim.Selector{Class: "tca"}, "START", sim.Outcome{Kind: sim.FailStay, Error: "cannot start: simulated"})
+		return startScenario(w)
+	}},
+	{"start-error-noncritical", func(w *sim.World) error {
+		// the non-critical task tcc answers START with an error and reports ERROR
+		w.SetOutcome(sim.Selector{Class: "tcc"}, "START", sim.Outcome{Kind: sim.FailError, Error: "cannot start: simulated"})
+		return startScenario(w)
+	}},
+	{"die-while-running", func(w *sim.World) error {
+		id, st, err := newEnv(w)
+		if err != nil {
+			return err
+		}
+		st, err = control(w, id, pb.ControlEnvironmentRequest_START_ACTIVITY)
+		fmt.Printf("env %s START_ACTIVITY -> %q err %v\n", id, st, err)
+		if err != nil {
+			return err
+		}
+		dump(w)
+		var victim string
+		for _, t := range w.Tasks() {
+			if t.Class == "tcb" {
+				victim = t.TaskID
+			}
+		}
+		fmt.Printf("critical task tcb (%s) dies: TASK_FAILED from its executor\n", victim)
+		if err = w.Master.InjectStatus(victim, mesos.TASK_FAILED, "process exited with 137"); err != nil {
+			return err
+		}
+		st, err = w.WaitEnvState(id, ceiling, "ERROR", "")
+		fmt.Printf("environment state after the death: %q (err %v)\n  sim tasks: %s\n  core tasks: %s\n", st, err, tasksLine(w), coreTasks(w))
+		dump(w)
+		if err != nil {
+			return err
+		}
+		err = destroy(w, id, true)
+		fmt.Printf("DestroyEnvironment(force) -> err %v; environments: %s\n", err, envs(w))
+		if e := waitAllTerminal(w); e != nil {
+			return e
+		}
+		fmt.Printf("  sim tasks: %s\n  core tasks: %s\n", tasksLine(w), coreTasks(w))
+		return nil
+	}},
+	{"restart-with-live-tasks", func(w *sim.World) error {
+		id, st, err := newEnv(w)
+		if err != nil {
+			return err
+		}
+		fmt.Printf("env %s %s; sim tasks: %s\n", id, st, tasksLine(w))
+		dump(w)
+		fmt.Println("kill -9 the core, start a new one against the same master/consul/repo")
+		if err = w.RestartCore(); err != nil {
+			return err
+		}
+		fmt.Printf("new core: framework id %s (KV mesos_fid), environments: %s, core tasks: %s\n", w.Master.FrameworkID(), envs(w), coreTasks(w))
+		// whatever the new core does about the old tasks shows up as calls; wait for the reconciliation answers
+		// to be consumed: the RECONCILE call of epoch 2 and, if the core kills them, the terminal states
+		err = w.Master.Wait("reconciliation handled", 20*time.Second, func(v *sim.View) bool {
+			for _, t := range v.Tasks {
+				if !t.Terminal {
+					return false
+				}
+			}
+			return true
+		})
+		if err != nil {
+			fmt.Println("(old tasks still alive after 20s — the core left them alone)")
+		}
+		fmt.Printf("  sim tasks: %s\n  core tasks: %s\n", tasksLine(w), coreTasks(w))
+		dump(w)
+		id2, st2, err := newEnv(w)
+		fmt.Printf("NewEnvironment on the restarted core -> %s %s err %v\n  sim tasks: %s\n", id2, st2, err, tasksLine(w))
+		return err
+	}},
+	{"drop-stream", func(w *sim.World) error {
+		id, st, err := newEnv(w)
+		if err != nil {
+			return err
+		}
+		fmt.Printf("env %s %s; sim tasks: %s\n", id, st, tasksLine(w))
+		dump(w)
+		fmt.Println("master drops the event stream (connection reset)")
+		n := len(w.Trace())
+		w.DropStream(true)
+		if err = w.Master.Wait("re-subscription", ceiling, func(v *sim.View) bool {
+			for _, r := range v.Trace[n:] {
+				if r.Type == "SUBSCRIBED" {
+					return true
+				}
+			}
+			return false
+		}); err != nil {
+			return err
+		}
+		// give the core the chance to act on the reconciliation answers: wait for a terminal task or 5s of quiet
+		_ = w.Master.Wait("kills after reconciliation", 5*time.Second, func(v *sim.View) bool {
+			for _, t := range v.Tasks {
+				if !t.Terminal {
+					return false
+				}
+			}
+			return true
+		})
+		st, err = w.EnvState(id)
+		fmt.Printf("after re-subscription: env state %q err %v\n  sim tasks: %s\n  core tasks: %s\n", st, err, tasksLine(w), coreTasks(w))
+		st, err = w.WaitEnvState(id, 20*time.Second, "ERROR", "")
+		fmt.Printf("a little later: env state %q (wait err %v)\n  core tasks: %s\n", st, err, coreTasks(w))
+		return nil
+	}},
+	{"undeliverable+gate+duplicate", func(w *sim.World) error {
+		w.SetOutcome(sim.Selector{Class: "tca"}, "CONFIGURE", sim.Outcome{Kind: sim.Duplicate})
+		w.SetOutcome(sim.Selector{Class: "tcb"}, "START", sim.Outcome{Kind: sim.OK, Gate: "g1"})
+		id, st, err := newEnv(w)
+		if err != nil {
+			return err
+		}
+		fmt.Printf("NewEnvironment (tca answers CONFIGURE twice) -> env %s state %s\n", id, st)
+		dump(w)
+		type res struct {
+			st  string
+			err error
+		}
+		ch := make(chan res, 1)
+		go func() {
+			st, err := control(w, id, pb.ControlEnvironmentRequest_START_ACTIVITY)
+			ch <- res{st, err}
+		}()
+		if err = sim.Poll("tcb's START parked at the gate", ceiling, func() (bool, error) { return w.Master.Held("g1") == 1, nil }); err != nil {
+			return err
+		}
+		st, _ = w.EnvState(id)
+		fmt.Printf("START_ACTIVITY in flight, tcb holds its reply: env state %q, sim tasks: %s\n", st, tasksLine(w))
+		w.Release("g1")
+		r := <-ch
+		fmt.Printf("gate released: START_ACTIVITY -> %q err %v\n", r.st, r.err)
+		dump(w)
+		st, err = control(w, id, pb.ControlEnvironmentRequest_STOP_ACTIVITY)
+		fmt.Printf("STOP_ACTIVITY -> %q err %v\n", st, err)
+		dump(w)
+		fmt.Println("now the master answers the MESSAGE call carrying tca's START with HTTP 503")
+		w.SetOutcome(sim.Selector{Class: "tca"}, "START", sim.Outcome{Kind: sim.Undeliverable, Times: 1})
+		st, err = control(w, id, pb.ControlEnvironmentRequest_START_ACTIVITY)
+		st2, _ := w.EnvState(id)
+		fmt.Printf("START_ACTIVITY -> %q err %v; GetEnvironment: %q\n  sim tasks: %s\n  core tasks: %s\n", st, err, st2, tasksLine(w), coreTasks(w))
+		_ = w.Master.Wait("quiet", 3*time.Second, func(v *sim.View) bool { return false })
+		dump(w)
+		return nil
+	}},
+	{"launch-failure", func(w *sim.World) error {
+		w.SetOutcome(sim.Selector{Class: "tca"}, sim.EvLaunch, sim.Outcome{Kind: sim.Die})
+		t1 := time.Now()
+		id, st, err := newEnv(w)
+		fmt.Printf("NewEnvironment (critical tca fails at launch) -> id %q state %q after %.1fs\n  err %v\n  environments: %s\n", id, st, time.Since(t1).Seconds(), err, envs(w))
+		_ = waitAllTerminal(w)
+		fmt.Printf("  sim tasks: %s\n  core tasks: %s\n", tasksLine(w), coreTasks(w))
+		return nil
+	}},
+	{"hook", func(w *sim.World) error {
+		if err := w.SetTaskClass("thook", taskClass("thook", "hook")); err != nil {
+			return err
+		}
+		if err := w.SetWorkflow("simwf", workflow+`  - name: "prehook"
+    task:
+      load: thook
+      trigger: before_START_ACTIVITY
+      timeout: 20s
+`); err != nil {
+			return err
+		}
+		w.SetOutcome(sim.Selector{Class: "thook"}, sim.EvHook, sim.Outcome{Kind: sim.OK, ExitCode: 0})
+		id, st, err := newEnv(w)
+		if err != nil {
+			return err
+		}
+		fmt.Printf("NewEnvironment with a before_START_ACTIVITY hook task -> %s %s\n  sim tasks: %s\n", id, st, tasksLine(w))
+		dump(w)
+		st, err = control(w, id, pb.ControlEnvironmentRequest_START_ACTIVITY)
+		fmt.Printf("START_ACTIVITY (hook exits 0) -> %q err %v\n", st, err)
+		dump(w)
+		st, err = control(w, id, pb.ControlEnvironmentRequest_STOP_ACTIVITY)
+		fmt.Printf("STOP_ACTIVITY -> %q err %v\n", st, err)
+		w.SetOutcome(sim.Selector{Class: "thook"}, sim.EvHook, sim.Outcome{Kind: sim.OK, ExitCode: 3})
+		st, err = control(w, id, pb.ControlEnvironmentRequest_START_ACTIVITY)
+		st2, _ := w.EnvState(id)
+		fmt.Printf("START_ACTIVITY (hook exits 3) -> %q err %v; GetEnvironment %q\n", st, err, st2)
+		dump(w)
+		return nil
+	}},
+}
+
+func waitAllTerminal(w *sim.World) error {
+	return w.Master.Wait("all tasks terminal", ceiling, func(v *sim.View) bool {
+		for _, t := range v.Tasks {
+			if !t.Terminal {
+				return false
+			}
+		}
+		return true
+	})
+}
+
+func startScenario(w *sim.World) error {
+	id, st, err := newEnv(w)
+	if err != nil {
+		return err
+	}
+	fmt.Printf("NewEnvironment -> env %s state %s\n", id, st)
+	dump(w)
+	st, err = control(w, id, pb.ControlEnvironmentRequest_START_ACTIVITY)
+	st2, _ := w.EnvState(id)
+	fmt.Printf("ControlEnvironment START_ACTIVITY -> reply state %q err %v\n  GetEnvironment state: %q\n  sim tasks: %s\n  core tasks: %s\n", st, err, st2, tasksLine(w), coreTasks(w))
+	dump(w)
+	err = destroy(w, id, true)
+	fmt.Printf("DestroyEnvironment(force) -> err %v; environments: %s\n", err, envs(w))
+	if e := waitAllTerminal(w); e != nil {
+		return e
+	}
+	fmt.Printf("  sim tasks: %s\n  core tasks: %s\n", tasksLine(w), coreTasks(w))
+	return nil
 }
 
 var _ = mesos.TASK_RUNNING
